@@ -58,7 +58,7 @@ def call(x, api, dtype, nd=None):
     elif api == "gund":
         t, p, s, tr = gund(a, nd)
     else:
-        da = xr.DataArray(a.reshape(1, 1, -1), dims=("y", "x", "time"))
+        da = xr.DataArray(a.reshape(1, 1, -1), dims=("y", "x", "time")).transpose(*[("y", "x", "time"), ("time", "y", "x"), ("y", "time", "x")][len(x) % 3])
         if api.startswith("mktrend_nd"):
             da.attrs["nodata"] = nd
         if api.endswith("dask"):
